@@ -139,13 +139,15 @@ def hostOK (m : Msg) : Bool :=
   | none => false
 
 /-- `Transfer-Encoding` is absent or exactly `chunked` (HTTP/1.1 up); the length field says what the
-body is; chunk sizes stay below 2^62. -/
+body is, or there is neither field and no body (`cl = -1`: nothing is written, the reader reports
+`ContentLength = 0`); chunk sizes stay below 2^62. -/
 def framingOK (m : Msg) : Bool :=
   if isChunked m.te then
     m.te == [chunkedTok] && m.cl == -1 && atLeast11 m && decide ((m.body.getD []).length < 2 ^ 62)
   else
-    m.te.isEmpty && decide (0 ≤ m.cl) && decide (m.cl < 2 ^ 63) &&
-      decide (((m.body.getD []).length : Int) = m.cl) && m.trailer.isNone
+    m.te.isEmpty && m.trailer.isNone &&
+      ((m.cl == -1 && (m.body.getD []).isEmpty) ||
+       (decide (0 ≤ m.cl) && decide (m.cl < 2 ^ 63) && decide (((m.body.getD []).length : Int) = m.cl)))
 
 /-- A trailer is a non-empty sorted list of valid fields that fits `bufio`'s window. -/
 def trailerOK (m : Msg) : Bool :=
@@ -171,8 +173,11 @@ instance (m : Msg) : Decidable (WFReq m) := by unfold WFReq; infer_instance
 `wire` derived from `m.cl`, as the header map is flattened (sorted by key). -/
 def parsedHdr (m : Msg) : List KV := sortKV (clF m ++ e2e m)
 
+/-- `ContentLength` as the reader of a request reports it: `0` when neither framing field is there. -/
+def parsedCL (m : Msg) : Int := if !isChunked m.te && m.cl < 0 then 0 else m.cl
+
 def reqParsed (m : Msg) : Parsed :=
-  ⟨{ m with hdr := parsedHdr m }, shouldClose m.major m.minor (headOf m), none⟩
+  ⟨{ m with hdr := parsedHdr m, cl := parsedCL m }, shouldClose m.major m.minor (headOf m), none⟩
 
 /-! facts about `headOf` -/
 
@@ -241,13 +246,17 @@ theorem fixPragma_id (hs : List KV) (h : has hs pragmaKey = false) : fixPragma h
   simp [fixPragma, vals_eq_nil_of_has hs pragmaKey h]
 
 /-- Non-chunked request: `Content-Length n`, then exactly `n` body bytes; whatever follows is left. -/
-theorem readRequest_wire_cl (m : Msg) (h : WFReq m) (hch : isChunked m.te = false) (rest : Bytes) :
+theorem readRequest_wire_cl (m : Msg) (h : WFReq m) (hch : isChunked m.te = false) (hcl0 : 0 ≤ m.cl)
+    (rest : Bytes) :
     readRequest (wire m ++ rest) = .complete (reqParsed m) rest := by
   obtain ⟨hreq, hcode, hstatus, hm1, hm2, hm3, hm4, hmaj, hmin, hhost, hhdr, htr, hpr, hfr, hbody, _⟩ := h
   obtain ⟨b, hb⟩ := Option.isSome_iff_exists.mp hbody
   simp only [framingOK, hch, Bool.false_eq_true, if_false, Bool.and_eq_true, decide_eq_true_eq, hb,
-    Option.getD_some] at hfr
-  obtain ⟨⟨⟨⟨hte, hcl0⟩, hcl63⟩, hlen⟩, htrn⟩ := hfr
+    Option.getD_some, Bool.or_eq_true, beq_iff_eq] at hfr
+  obtain ⟨⟨hte, htrn⟩, hcases⟩ := hfr
+  have hpcl : parsedCL m = m.cl := by simp [parsedCL, hch]; omega
+  rcases hcases with ⟨hneg, _⟩ | ⟨⟨_, hcl63⟩, hlen⟩
+  · omega
   have hteF : teF m = [] := by simp [teF, hte]
   obtain ⟨n, hn⟩ : ∃ n : Nat, m.cl = n := ⟨m.cl.toNat, by omega⟩
   have hclF : clF m = [(clKey, natDigits n)] := by simp [clF, hch, hcl0, hn, itoa_ofNat]
@@ -304,7 +313,64 @@ theorem readRequest_wire_cl (m : Msg) (h : WFReq m) (hch : isChunked m.te = fals
       subst this; simp [h0, readBody]
     · simp only [h0, if_false]; rw [← hbn]; exact readBody_len b rest
   rw [hrb]
-  simp only [reqParsed, parsedHdr, hclF, reqSkeleton]
+  simp only [reqParsed, parsedHdr, hclF, reqSkeleton, hpcl]
+  congr 1
+  cases m
+  simp_all
+
+/-- Request with neither `Content-Length` nor `Transfer-Encoding` (the usual GET): no body, the
+reader reports `ContentLength = 0`; whatever follows the blank line is left. -/
+theorem readRequest_wire_nobody (m : Msg) (h : WFReq m) (hch : isChunked m.te = false) (hcl : m.cl = -1)
+    (rest : Bytes) :
+    readRequest (wire m ++ rest) = .complete (reqParsed m) rest := by
+  obtain ⟨hreq, hcode, hstatus, hm1, hm2, hm3, hm4, hmaj, hmin, hhost, hhdr, htr, hpr, hfr, hbody, _⟩ := h
+  obtain ⟨b, hb⟩ := Option.isSome_iff_exists.mp hbody
+  simp only [framingOK, hch, Bool.false_eq_true, if_false, Bool.and_eq_true, decide_eq_true_eq, hb,
+    Option.getD_some, Bool.or_eq_true, beq_iff_eq] at hfr
+  obtain ⟨⟨hte, htrn⟩, hcases⟩ := hfr
+  have hbe : b = [] := by
+    rcases hcases with ⟨_, hbe⟩ | ⟨⟨h0, _⟩, _⟩
+    · exact List.isEmpty_iff.mp hbe
+    · omega
+  subst hbe
+  have hpcl : parsedCL m = 0 := by simp [parsedCL, hch, hcl]
+  have hteF : teF m = [] := by simp [teF, hte]
+  have hclF : clF m = [] := by simp [clF, hch, hcl]
+  obtain ⟨auth, hauth, hhostv⟩ := host_resolved m hreq hhost
+  have hvo : valueOK m.host = true := by simp only [hostOK, Bool.and_eq_true] at hhost; exact hhost.1
+  have hexcl : ∀ k, (exclOf m).contains k = true → has (e2e m) k = false := has_e2e_excl m
+  have hex : exclOf m = [hostKey, clKey, teKey] := by simp [exclOf, hreq]
+  have he_host := hexcl hostKey (by rw [hex]; decide)
+  have he_cl := hexcl clKey (by rw [hex]; decide)
+  have he_te := hexcl teKey (by rw [hex]; decide)
+  have hhead : headOf m = hostF m ++ e2e m := by simp [headOf, hteF, hclF]
+  have hvalid : ∀ kv ∈ headOf m, ValidKV kv = true := by
+    intro kv hkv
+    rw [hhead] at hkv
+    rcases List.mem_append.mp hkv with hkv | hkv
+    · exact valid_hostF m hvo kv hkv
+    · exact valid_e2e m hhdr kv hkv
+  have kn := keys_ne
+  have hvh : vals (headOf m) hostKey = vals (hostF m) hostKey := by
+    rw [hhead, vals_append, vals_eq_nil_of_has _ _ he_host]; simp
+  have hpragma : has (headOf m) pragmaKey = false := by
+    rw [hhead, has_append, has_hostF m _ kn.2.2.2.1, hpr]; rfl
+  have hte' : has (headOf m) teKey = false := by
+    rw [hhead, has_append, has_hostF m _ kn.1, he_te]; rfl
+  have hcl' : has (headOf m) clKey = false := by
+    rw [hhead, has_append, has_hostF m _ kn.2.1, he_cl]; rfl
+  have hdel : del (headOf m) hostKey = e2e m := by
+    rw [hhead, del_append, del_hostF, del_eq_self_of_has _ _ he_host]; simp
+  have hwire : wire m ++ rest = m.method ++ [32] ++ m.url ++ [32] ++ protoBytes m.major m.minor ++ crlf
+      ++ fields (headOf m) ++ crlf ++ rest := by
+    simp [wire, hch, headSection_eq, startLine, hreq, hb]
+  unfold readRequest
+  rw [hwire, readRequestHead_serialized m.method m.url m.major m.minor auth (headOf m) rest
+    hm1 hm2 hm3 hm4 hauth hmaj hmin hvalid (by rw [hvh]; exact vals_hostF_host_le m)]
+  rw [fixPragma_id _ hpragma, hvh, hhostv]
+  rw [readTransfer_req_none m.method m.major m.minor _ (headOf m) hte' hcl']
+  simp only [liftE, finishBody, hdel, readBody_none]
+  simp only [reqParsed, parsedHdr, hclF, reqSkeleton, hpcl]
   congr 1
   cases m
   simp_all
@@ -412,7 +478,8 @@ theorem readRequest_wire_chunked (m : Msg) (h : WFReq m) (hch : isChunked m.te =
     (by rw [hdelte]; exact hcl') (by rw [hdelte]; exact htr') (by simp) (by decide)]
   simp only [liftE, finishBody, hdelte, hdel]
   rw [readBody_chunked cs hne' _ trv rest hrt]
-  simp only [reqParsed, parsedHdr, hclF, reqSkeleton, hcs, hb, Option.getD_some, htrv]
+  have hpcl : parsedCL m = m.cl := by simp [parsedCL, hch]
+  simp only [reqParsed, parsedHdr, hclF, reqSkeleton, hcs, hb, Option.getD_some, htrv, hpcl]
   congr 1
   cases m
   simp_all
@@ -422,7 +489,17 @@ end-to-end fields plus the explicit `Content-Length`), and not one byte of what 
 theorem readRequest_wire (m : Msg) (h : WFReq m) (rest : Bytes) :
     readRequest (wire m ++ rest) = .complete (reqParsed m) rest := by
   cases hch : isChunked m.te with
-  | false => exact readRequest_wire_cl m h hch rest
+  | false =>
+    by_cases hcl0 : 0 ≤ m.cl
+    · exact readRequest_wire_cl m h hch hcl0 rest
+    · have hfr := h.2.2.2.2.2.2.2.2.2.2.2.2.2.1
+      simp only [framingOK, hch, Bool.false_eq_true, if_false, Bool.and_eq_true, decide_eq_true_eq,
+        Bool.or_eq_true, beq_iff_eq] at hfr
+      have hcl : m.cl = -1 := by
+        rcases hfr.2 with ⟨hc, _⟩ | ⟨⟨h0, _⟩, _⟩
+        · exact hc
+        · omega
+      exact readRequest_wire_nobody m h hch hcl rest
   | true =>
     rw [wire_chunked m hch]
     apply readRequest_wire_chunked m h hch
@@ -885,7 +962,8 @@ theorem wire_eq_snapshot_crlf (o : Opts) (m : Msg) (t : List KV) (hc : captures 
 
 /-- A message already in the reader's normal form (header list sorted, carrying its own
 `Content-Length` field) re-parses to itself, field for field. -/
-theorem reqParsed_msg_of_normal (m : Msg) (h : parsedHdr m = m.hdr) : (reqParsed m).msg = m := by
+theorem reqParsed_msg_of_normal (m : Msg) (h : parsedHdr m = m.hdr) (hc : parsedCL m = m.cl) :
+    (reqParsed m).msg = m := by
   cases m; simp_all [reqParsed]
 
 theorem resParsed_msg_of_normal (m : Msg) (h : resHdr m = m.hdr) : (resParsed m).msg = m := by
